@@ -401,8 +401,9 @@ func (p *specParser) postfix() (*SExpr, error) {
 // ---------- contract files ----------
 
 type Clause struct {
-	Kind string // requires ensures invariant assert
-	Loop int
+	Kind  string // requires ensures invariant assert assume
+	Match string // for assert/assume: source line substring
+	Loop  int
 	Expr *SExpr
 	Src  string
 	Line int
@@ -425,6 +426,7 @@ type Contract struct {
 	Hints     []*Clause
 	LoopMod   map[int][]string
 	Decreases []*Clause
+	Asserts   []*Clause // assert at "text": expr   /  assume at "text": expr
 }
 
 type SpecFunc struct {
@@ -501,7 +503,27 @@ func (cs *ContractSet) loadContractFile(path, pkgPath string) error {
 				return fail(fmt.Errorf("duplicate contract for %s", key))
 			}
 			cs.Funcs[key] = cur
-		case "requires", "ensures", "assert", "hint", "decreases":
+		case "assert", "assume":
+			if cur == nil {
+				return fail(fmt.Errorf("%s outside func", word))
+			}
+			// assert at "source text": expr
+			w2, r2 := splitWord(rest)
+			if w2 != "at" || !strings.HasPrefix(r2, "\"") {
+				return fail(fmt.Errorf("expected: %s at \"source text\": expr", word))
+			}
+			end := strings.Index(r2[1:], "\":")
+			if end < 0 {
+				return fail(fmt.Errorf("expected: %s at \"source text\": expr", word))
+			}
+			match := r2[1 : 1+end]
+			body := strings.TrimSpace(r2[end+3:])
+			e, err := parseSpecExpr(body)
+			if err != nil {
+				return fail(err)
+			}
+			cur.Asserts = append(cur.Asserts, &Clause{Kind: word, Match: match, Expr: e, Src: body, Line: c.no, File: path})
+		case "requires", "ensures", "hint", "decreases":
 			if cur == nil {
 				return fail(fmt.Errorf("%s outside func", word))
 			}
